@@ -1,5 +1,5 @@
 (* CheckC06.v — executable comparison for C06 *)
-From MQ Require Import Base Codec Inbound Parse.
+From MQ Require Import Base Codec Inbound Parse ParseSpec ParsePending.
 Open Scope N_scope.
 
 Inductive parse_obs :=
@@ -42,11 +42,29 @@ Definition parse_obs_eqb (a b : parse_obs) : bool :=
 
 Definition parse_case := (N * N * list N * parse_obs)%type.
 
+(* indices are unary numbers: when a change breaks hundreds of cases, reading back and printing
+   all of them costs minutes; the driver reports the first few *)
+Definition first_indices {A} (p : A -> bool) (l : list A) : list nat := firstn 25 (indices_where p l).
+
+(* the property on one parser call: no panic; a malformed packet (ParseSpec.malformed, written from
+   the property's list: U+0000 anywhere in a topic, QoS 3, illegal flags, short body, ...) is
+   refused with a protocol error and nothing else is refused; no accepted PUBLISH carries U+0000
+   in its topic *)
+Definition parse_ok (c : parse_case) : bool :=
+  let '(t, f, b, o) := c in
+  match o with
+  | PO_panic => false
+  | PO_err e => malformed t f b && is_protocol_error e    (* refused: only if malformed *)
+  | PO_other => false
+  | PO_publish m => negb (malformed t f b) && negb (has_nul (m_topic m))
+  | _ => negb (malformed t f b)
+  end.
+
 Definition c06_parse_violations (cs : list parse_case) : list nat :=
-  indices_where (fun c => match snd c with PO_panic => true | _ => false end) cs.
+  first_indices (fun c => negb (parse_ok c)) cs.
 
 Definition c06_parse_mismatches (cs : list parse_case) : list nat :=
-  indices_where (fun c => let '(t, f, b, o) := c in negb (parse_obs_eqb o (parse_model t f b))) cs.
+  first_indices (fun c => let '(t, f, b, o) := c in negb (parse_obs_eqb o (parse_model t f b))) cs.
 
 (* streams: (handler, bytes, survived, largest Read buffer, Err() class, state log is
    [Active; Closed(err)] with Done closed, reader timeline) *)
@@ -60,9 +78,22 @@ Definition model_max_alloc (es : list sv_event) : N :=
 
 (* the property's clauses on what was observed: no crash, no hang, no buffer above the protocol
    maximum, an error is observable through Err() and the Closed callback, Done is closed *)
+Definition no_nul_delivered (evs : list in_event) : bool :=
+  forallb (fun e => match e with Hand m => negb (has_nul (m_topic m)) | _ => true end) evs.
+
+Definition err_is (p : perr -> bool) (err : option perr) : bool :=
+  match err with Some e => p e | None => false end.
+
+Definition is_eof (e : perr) : bool := match e with EEOF | EUnexpectedEOF => true | _ => false end.
+
+(* ... and: a stream with a malformed packet (ParseSpec.has_malformed: the protocol's framing +
+   the property's list) ends with a protocol error in Err(); no message whose topic contains
+   U+0000 reaches the handler *)
 Definition stream_ok (c : stream_case) : bool :=
   let '(h, s, survived, maxread, err, closed_ok, evs) := c in
-  survived && (maxread <=? max_packet) && closed_ok.
+  survived && (maxread <=? max_packet) && closed_ok
+  && (if has_malformed s then err_is is_protocol_error err else err_is is_eof err)
+  && no_nul_delivered evs.
 
 Definition stream_model_ok (c : stream_case) : bool :=
   let '(h, s, survived, maxread, err, closed_ok, evs) := c in
@@ -74,6 +105,121 @@ Definition stream_model_ok (c : stream_case) : bool :=
   && list_eqb in_event_eqb evs (model_in_events mev)
   && (maxread =? model_max_alloc mev).
 
-Definition c06_stream_violations (cs : list stream_case) : list nat := indices_where (fun c => negb (stream_ok c)) cs.
+Definition c06_stream_violations (cs : list stream_case) : list nat := first_indices (fun c => negb (stream_ok c)) cs.
 Definition c06_stream_mismatches (cs : list stream_case) : list nat :=
-  indices_where (fun c => let '(_, _, survived, _, _, _, _) := c in survived && negb (stream_model_ok c)) cs.
+  first_indices (fun c => let '(_, _, survived, _, _, _, _) := c in survived && negb (stream_model_ok c)) cs.
+
+(* ---------- hostile acknowledgements for requests in flight ---------- *)
+Inductive obs_res :=
+| OR_ok (granted : list N)     (* nil error (Subscribe: the granted QoS per filter) *)
+| OR_invalid_suback            (* errors.Is(err, ErrInvalidSubAck) *)
+| OR_closed                    (* errors.Is(err, ErrClosedTransport) *)
+| OR_other                     (* any other error *)
+| OR_none.                     (* the call did not return within the limit: stuck *)
+
+(* (handler, requests in flight — caller j has the identifier j+1 —, the peer's answer with
+   identifiers renamed accordingly, process survived and nothing stuck, Err(), state log is
+   [Active; Closed(err)] with Done closed, reader timeline, result per caller, PUBREL writers) *)
+Definition inflight_case :=
+  (bool * list wkind * list N * bool * option perr * bool * list in_event * list obs_res * list nat)%type.
+
+Fixpoint mk_pending (j : nat) (reqs : list wkind) : pending :=
+  match reqs with
+  | [] => []
+  | k :: r => (j, k, N.of_nat (S j)) :: mk_pending (S j) r
+  end.
+
+(* the first thing in the answer that must end the link, by the property: a malformed packet, or a
+   SUBACK for a Subscribe in flight whose number of return codes is not the number of filters *)
+Inductive bad := NoBad | BadMalformed | BadCount (c : nat).
+
+Fixpoint find_sub (id : N) (w : list (nat * nat * N)) : option (nat * nat * list (nat * nat * N)) :=
+  match w with
+  | [] => None
+  | (c, n, i) :: r =>
+      if i =? id then Some (c, n, r)
+      else match find_sub id r with Some (c', n', r') => Some (c', n', (c, n, i) :: r') | None => None end
+  end.
+
+Fixpoint first_bad (fuel : nat) (w : list (nat * nat * N)) (s : list N) : bad :=
+  match fuel with
+  | O => NoBad
+  | S f =>
+      match fst (read_packet s) with
+      | RP_ok typ flag body rest =>
+          if malformed typ flag body then BadMalformed
+          else if typ =? 9 then
+            match body with
+            | hi :: lo :: codes =>
+                match find_sub (hi * 256 + lo) w with
+                | Some (c, n, w') => if Nat.eqb (length codes) n then first_bad f w' rest else BadCount c
+                | None => first_bad f w rest
+                end
+            | _ => BadMalformed
+            end
+          else first_bad f w rest
+      | RP_err EInvalidPacketLength => BadMalformed
+      | _ => NoBad
+      end
+  end.
+
+Definition sub_waiters (pd : pending) : list (nat * nat * N) :=
+  flat_map (fun w => match w with (c, WSub subs, i) => [(c, length subs, i)] | _ => [] end) pd.
+
+Definition obs_res_eqb (a b : obs_res) : bool :=
+  match a, b with
+  | OR_ok x, OR_ok y => list_eqb N.eqb x y
+  | OR_invalid_suback, OR_invalid_suback | OR_closed, OR_closed | OR_other, OR_other | OR_none, OR_none => true
+  | _, _ => false
+  end.
+
+(* every call returned with nil, ErrInvalidSubAck or ErrClosedTransport; a Subscribe that
+   returned nil got exactly as many granted QoS values as it had filters *)
+Definition results_sane (reqs : list wkind) (rs : list obs_res) : bool :=
+  Nat.eqb (length reqs) (length rs) &&
+  forallb (fun kr => match kr with
+                     | (_, OR_none) | (_, OR_other) => false
+                     | (WSub subs, OR_ok g) => Nat.eqb (length g) (length subs)
+                     | (WSub _, _) => true
+                     | (_, OR_invalid_suback) => false
+                     | _ => true
+                     end) (combine reqs rs).
+
+Definition inflight_ok (c : inflight_case) : bool :=
+  let '(h, reqs, s, alive, err, closed_ok, evs, rs, rels) := c in
+  alive && closed_ok && results_sane reqs rs && no_nul_delivered evs &&
+  match first_bad (S (length s)) (sub_waiters (mk_pending 0 reqs)) s with
+  | NoBad => err_is is_eof err
+  | BadMalformed => err_is is_protocol_error err
+  | BadCount j => err_is (fun _ => true) err
+                  && match nth_error rs j with Some OR_invalid_suback => true | _ => false end
+  end.
+
+Definition res_of_model (r : call_res) : obs_res :=
+  match r with CROk g => OR_ok g | CRInvalidSubAck => OR_invalid_suback | CRClosed => OR_closed end.
+
+Fixpoint results_match (evs : list pd_event) (j : nat) (rs : list obs_res) : bool :=
+  match rs with
+  | [] => true
+  | r :: rest =>
+      match pd_result evs j with
+      | [m] => obs_res_eqb r (res_of_model m)
+      | _ => false
+      end && results_match evs (S j) rest
+  end.
+
+Definition inflight_model_ok (c : inflight_case) : bool :=
+  let '(h, reqs, s, alive, err, closed_ok, evs, rs, rels) := c in
+  let '(mev, mend) := serve_with h (mk_pending 0 reqs) s in
+  match mend with
+  | EndErr e => option_eqb perr_eqb err (Some e)
+  | _ => false
+  end
+  && list_eqb in_event_eqb evs (model_in_events (pd_sv mev))
+  && Nat.eqb (length reqs) (length rs) && results_match mev 0 rs
+  && list_eqb Nat.eqb rels (pd_rels mev).
+
+Definition c06_inflight_violations (cs : list inflight_case) : list nat :=
+  first_indices (fun c => negb (inflight_ok c)) cs.
+Definition c06_inflight_mismatches (cs : list inflight_case) : list nat :=
+  first_indices (fun c => let '(_, _, _, alive, _, _, _, _, _) := c in alive && negb (inflight_model_ok c)) cs.
